@@ -62,7 +62,15 @@ class CaseOut:
         self.ebasis = None
         self.lp_ok = None
         self.other = []
+        self.traces = []      # one event list per EXACT solve
+        cur_trace = []
         for t in toks:
+            if t[0] == "TRACE":
+                cur_trace.append((int(t[1]), int(t[2]), int(t[3])))
+                continue
+            if t[0] == "SOLVE" and t[1] == "EXACT":
+                self.traces.append(cur_trace)
+                cur_trace = []
             k = t[0]
             if k == "LP":
                 self.lp_ok = t[1] == "OK"
@@ -182,3 +190,19 @@ def parse_opttest_out(toks):
         elif t[0] == "ACC":
             acc[t[1]] = (int(t[2]), t[3:])
     return v, acc
+
+
+def trace_query(qid, trace, algo, eb):
+    return "Q %s trace %s %d %d %s" % (qid, algo, 1 if eb else 0, len(trace), " ".join("%d %d %d" % e for e in trace))
+
+
+def trace_exit(trace):
+    """(rval!=0, status) from the exit event"""
+    for e, l, v in trace:
+        if e == 11:
+            return (1 if l != 0 else 0, v)
+    return None
+
+
+def trace_levels(trace):
+    return max([l for e, l, v in trace if e != 11] or [0])
